@@ -10,6 +10,7 @@ pub enum PreprocessError {
     LexerError(LexerError),
     UnknownCommand(SourceLocation),
     InvalidInclude(SourceLocation),
+    IncludeNestingTooDeep(SourceLocation),
     InvalidDefine(SourceLocation),
     InvalidUndef(SourceLocation),
     MacroRequiresArguments(String),
@@ -43,6 +44,11 @@ impl CompileError for PreprocessError {
             PreprocessError::UnknownPragma(loc) => {
                 w.write_message(&|f| write!(f, "unknown pragma"), *loc, Severity::Error)
             }
+            PreprocessError::IncludeNestingTooDeep(loc) => w.write_message(
+                &|f| write!(f, "#include nested too deeply"),
+                *loc,
+                Severity::Error,
+            ),
             PreprocessError::InvalidInclude(loc) => w.write_message(
                 &|f| write!(f, "invalid #include command"),
                 *loc,
@@ -134,10 +140,14 @@ impl CompileError for PreprocessError {
     }
 }
 
+/// Maximum number of files that may be open in a chain of #include commands
+const MAX_INCLUDE_DEPTH: u32 = 200;
+
 /// Manage files that are returned from the external include handler
 struct FileLoader<'a> {
     file_name_remap: HashMap<String, FileId>,
     pragma_once_files: HashSet<FileId>,
+    include_depth: u32,
     source_manager: &'a mut SourceManager,
     include_handler: &'a mut dyn IncludeHandler,
 }
@@ -156,6 +166,7 @@ impl<'a> FileLoader<'a> {
         FileLoader {
             file_name_remap: HashMap::new(),
             pragma_once_files: HashSet::new(),
+            include_depth: 0,
             source_manager,
             include_handler,
         }
@@ -1085,10 +1096,17 @@ fn preprocess_command(
                 _ => return Err(PreprocessError::InvalidInclude(command_location)),
             };
 
+            // A file that includes itself would otherwise recurse until the stack is exhausted
+            if file_loader.include_depth >= MAX_INCLUDE_DEPTH {
+                return Err(PreprocessError::IncludeNestingTooDeep(command_location));
+            }
+
             // Include the file
             match file_loader.load(&file_name, Some(file_id)) {
                 Ok(file) => {
+                    file_loader.include_depth += 1;
                     preprocess_included_file(buffer, file_loader, file, macros, condition_chain)?;
+                    file_loader.include_depth -= 1;
                     Ok(())
                 }
                 Err(err) => Err(PreprocessError::FailedToFindFile(
